@@ -941,6 +941,12 @@ func (fx *FuncCtx) evalSliceExpr(st *State, x *ast.SliceExpr) Val {
 		m := fx.heapGet(st, name, fx.memSort(arr.T.Elem()))
 		st.heap[name] = fx.define(name, Store(m, rid, arr.Arr))
 		_ = es
+		// a callee that writes through the view (a call argument a[:]) changes the array itself:
+		// remember where the array lives so that the call can havoc it (see checkCallFrame)
+		if fx.arrViewSrc == nil {
+			fx.arrViewSrc = map[string]arrViewInfo{}
+		}
+		fx.arrViewSrc[rid.S] = arrViewInfo{src: x.X, t: arr.T}
 		return SliceV{Rid: rid, Off: lo, Len: Sub(hi, lo), Cap: Sub(IntLit(n), lo), Elem: arr.T.Elem()}
 	}
 	fx.unsupportedf("slice expression on %s", valString(base))
